@@ -102,6 +102,9 @@ CHECKS = {
  'C31': (['asan'], 'event-log monitor vs exact truncated power-series arithmetic in the monitor (functions applied by composition of closed-form Maclaurin coefficients over Fractions - independent of the library recurrences); expansions around a non-zero inner constant vs mpmath.taylor at 60 digits; get_coeff / as_dict consistency',
          'Compositions of depth <= 3 of the 13 supported functions, rational powers, quotients, products and sums with rational coefficients, expanded to 1-14 terms; every coefficient compared exactly.',
          'Inner series must have zero constant term for the exact reference (otherwise the numeric reference is used, to 1e-12).', 'DESIGN.md 3/C31'),
+ 'C26': (['asan'], 'event-log monitor vs dense Gaussian-rational arithmetic: the tree returned by matrix_add / matrix_mul / hadamard_product / transpose / conjugate_matrix / trace is evaluated by an independent tree evaluator and compared entry by entry with the dense evaluation of the recipe; size and every definite predicate answer compared with the concrete matrix (for expressions with a MatrixSymbol: with three instances of the symbol); run with assertions recording but not throwing (release semantics) under ASan',
+         'Expression trees of depth <= 3 over dense (random / symmetric / triangular / Toeplitz / diagonal-shaped), diagonal, identity and zero leaves of size 1-3 x 1-3 with rational and Gaussian-rational entries; chains of 2-3 factors with all compatible inner sizes.',
+         'diagonal / lower / upper of non-square matrices are a convention and not judged; indeterminate is never a violation.', 'DESIGN.md 3/C26'),
 }
 
 def main():
